@@ -17,7 +17,14 @@ def run_property(prop, tier, seed, root=None, overlay=None, only=None, quiet=Fal
     mod = importlib.import_module("pmcsa.rules_%s" % prop)
     chk = report.Check(prop, prog, tier=tier, seed=seed)
     chk.only = only
-    mod.run(chk)
+    partial = None
+    try:
+        mod.run(chk)
+    except model.AnalysisError as e:
+        # rules that already reported violations stand; the part that could not be analysed is reported as well
+        if not chk.findings() or not write:
+            raise
+        partial = str(e)
     if only:
         chk.rules = [r for r in chk.rules if r.id == only or r.id.startswith(only)]
     if not chk.rules:
@@ -31,6 +38,10 @@ def run_property(prop, tier, seed, root=None, overlay=None, only=None, quiet=Fal
         mutation = mutants.non_vacuity(prop, root)
     pf = (lambda *a, **k: None) if quiet else print
     code = report.finish(chk, t0, mod.LEVEL, mod.LEVEL_TEXT, mod.TRUSTED, mutation=mutation, print_fn=pf)
+    if partial is not None:
+        pf("ANALYSIS-ERROR (after the violations above; remaining rules not decided): %s" % partial)
+        if code == 0:
+            code = 2
     if mutation is not None:
         pf("   non-vacuity: %d/%d in-memory mutants of %s reported by the intended rule, %d not applicable to this tree; %d behaviour-preserving variants silent of %d" % (
             mutation["caught"], mutation["applicable"], prop, mutation["skipped"], mutation["silent_ok"], mutation["silent_total"]))
